@@ -9,6 +9,7 @@ from ..exact import Unsupported
 from .. import arith as A
 
 ID = 'C07'
+TECHNIQUE = 'runtime monitoring: + - * events by operator, function and NumPy ufunc judged against exact Fraction arithmetic and the growth rules; operands unchanged (frame monitor)'
 TITLE = '+ - * with optimal sizing are exact'
 RULE = ('arithmetic events (+ - * by operator, by fxpmath.add/sub/mul, by np.add/subtract/multiply) with optimal sizing and no '
         'out/out_like, result word <= 53: result values (code*LSB as Fractions) must equal the exact result of the operand values '
